@@ -276,7 +276,7 @@ def build_property_file(pid):
     if not os.path.exists(src):
         return False, 0, [], "no property file"
     text = open(src).read()
-    thms = re.findall(r"^\s*(?:Theorem|Corollary)\s+(\w+)", text, re.M)
+    thms = re.findall(r"^\s*(?:Theorem|Corollary|Definition)\s+(C\d\d_\w+)", text, re.M)
     with Lock("coqmake"):
         for ext in (".vo", ".glob", ".vok", ".vos"):
             try:
